@@ -100,6 +100,7 @@ func b01(b bool) string {
 type c20Rec struct {
 	field string
 	args  []reflect.Value
+	ctx   context.Context // the context the set function received
 }
 
 var errC20Sentinel = errors.New("sentinel-result")
@@ -160,7 +161,8 @@ func c20Call(l string, boundary bool) string {
 			name := name
 			ft := fld.Type()
 			fld.Set(reflect.MakeFunc(ft, func(args []reflect.Value) []reflect.Value {
-				rec = append(rec, c20Rec{name, args[1:]})
+				c, _ := args[0].Interface().(context.Context)
+				rec = append(rec, c20Rec{name, args[1:], c})
 				res := c20Results(ft, name)
 				sentinels[name] = res
 				return res
@@ -195,6 +197,11 @@ func c20Call(l string, boundary bool) string {
 	res := m.Call(args)
 	if len(rec) > 1 {
 		return "delegated-more-than-once"
+	}
+	if len(rec) == 1 && rec[0].ctx != ctx {
+		// "the same arguments" starts with the context: a derived one has another lifetime (one cancelled
+		// on return kills a reader that goes on using it)
+		return "delegated-context-changed"
 	}
 	if len(rec) == 1 {
 		// map each received argument to the position of the identical passed argument
